@@ -900,7 +900,38 @@ func scenarios() []*scen {
 	out = append(out, &scen{name: "F9-nested-bytes-four-zips", blobs: []hs.Blob{q[0], q[1], q[2], q[3], by1, by2, f9.blob}, files: []fileSpec{f9},
 		maxZip: 128<<10 + 40<<10, fixedOrders: [][]int{{0, 1, 2, 3, 4, 5, 6}, {6, 5, 4, 3, 2, 1, 0}},
 		note: "file -> [bytes(q1,q2), bytes(q3,q4)], 4 x 128 KiB chunks, zip limit 168 KiB: one chunk per zip, the second bytes blob and its chunks only in zips 2 and 3; orders: chunks, bytes blobs, file; thorough also the reverse"})
+	// a file spread over 12 zips: the wholeRef rows "w:<ref>:<n>" of parts 10 and 11 sort
+	// between parts 1 and 2 in the meta index
+	tw := smallChunks(12, 48<<10)
+	for i := range tw {
+		tw[i].Name = fmt.Sprintf("t%02d", i+1)
+	}
+	f10 := mkFile("f10", "f10.bin", tw...)
+	order := make([]int, 13)
+	for i := range order {
+		order[i] = i
+	}
+	out = append(out, &scen{name: "F10-twelve-zips", blobs: append(append([]hs.Blob{}, tw...), f10.blob), files: []fileSpec{f10},
+		maxZip: 48<<10 + 40<<10, fixedOrders: [][]int{order},
+		note: "12 x 48 KiB chunks, zip limit 88 KiB: one chunk per zip, 12 zips; order: chunks, file"})
+	// a legal but unusual schema: the middle part uses only a prefix of its blob
+	f11 := filePrefixPart("f11", "f11.bin", cA, cB, 200<<10, cC)
+	out = append(out, &scen{name: "F11-part-uses-prefix-of-blob", blobs: []hs.Blob{cA, cB, cC, f11.blob}, files: []fileSpec{f11},
+		fixedOrders: [][]int{{0, 1, 2, 3}, {3, 2, 1, 0}},
+		note:        "file = chunk A + the first 200 KiB of chunk B + chunk C (part size smaller than the blob); orders: chunks then file; thorough also the reverse"})
 	return out
+}
+
+// filePrefixPart: file = a ++ b[:n] ++ c, the middle part declaring size n < len(b).
+func filePrefixPart(name, fileName string, a, b hs.Blob, n int, c hs.Blob) fileSpec {
+	f := fileSpec{fileName: fileName}
+	f.content = append(append(append([]byte{}, a.Data...), b.Data[:n]...), c.Data...)
+	f.bounds = []int{len(a.Data), len(a.Data) + n}
+	j := fmt.Sprintf("{\"camliVersion\": 1,\n  \"camliType\": \"file\",\n  \"fileName\": %q,\n  \"parts\": [\n    {\"blobRef\": %q, \"size\": %d},\n    {\"blobRef\": %q, \"size\": %d},\n    {\"blobRef\": %q, \"size\": %d}\n  ],\n  \"unixMtime\": \"2014-05-13T16:53:20Z\"\n}",
+		fileName, a.Ref.String(), len(a.Data), b.Ref.String(), n, c.Ref.String(), len(c.Data))
+	f.blob = hs.Mk(name, []byte(j), "")
+	f.wholeRef = blob.RefFromBytes(f.content)
+	return f
 }
 
 func TestCheck(t *testing.T) {
